@@ -373,7 +373,9 @@ func (a *Allocation) WriteTo(p []byte, addr net.Addr) (n int, err error) {
 const rtpMTU = 1600
 
 func (a *Allocation) packetConnHandler(manager *Manager) {
-	buffer := make([]byte, rtpMTU)
+	// One spare byte tells a datagram of exactly rtpMTU bytes from a longer one,
+	// which the socket would silently cut down to the buffer size.
+	buffer := make([]byte, rtpMTU+1)
 
 	for {
 		n, srcAddr, err := a.relayPacketConn.ReadFrom(buffer)
@@ -381,6 +383,13 @@ func (a *Allocation) packetConnHandler(manager *Manager) {
 			manager.DeleteAllocation(a.fiveTuple)
 
 			return
+		}
+
+		if n > rtpMTU {
+			a.log.Infof("Relay socket %s dropped a datagram from %s larger than %d bytes",
+				a.relayPacketConn.LocalAddr(), srcAddr, rtpMTU)
+
+			continue
 		}
 
 		a.log.Debugf("Relay socket %s received %d bytes from %s",
